@@ -17,6 +17,10 @@ int main(int argc, char** argv) {
         try {
             if (k % 5 == 4) {   // simbody's special lone-particle node: childless Translation on Ground, identity frames, COM at origin
                 int np = r.I(1, 3);
+                // half of the time a Free or Ball body comes first: its quaternion reserves more q's than u's, so the particles'
+                // q and u offsets differ (an implementation that indexes u-space data by the q offset is exact otherwise)
+                if (r.I(0, 1)) { int ty = r.I(0, 1) ? 9 : 8; addMobod(ty, rs.matter.updGround(), r.xf(), Body::Rigid(randomMassProps(r)), r.xf(), false);
+                                 rs.types.push_back(ty); rs.revs.push_back(false); }
                 for (int i = 0; i < np; ++i) {
                     MobilizedBody::Translation(rs.matter.updGround(), Transform(), Body::Rigid(MassProperties(r.U(0.2, 3), Vec3(0), Inertia(0))), Transform());
                     rs.types.push_back(10); rs.revs.push_back(false);
